@@ -247,6 +247,32 @@ pub fn run(tier: Tier) -> Report {
         all_fail.extend(fails.into_iter().take(MAX_KEPT_FAILURES));
     }
 
+    // beyond the small bounds: long tokens, many tokens, long replacements (hand-picked edits)
+    {
+        let cases = scale_cases();
+        let e0 = evals.load(Ordering::Relaxed);
+        let sf: Vec<Failure> = cases
+            .par_iter()
+            .filter_map(|(t, s, e, r)| {
+                evals.fetch_add(1, Ordering::Relaxed);
+                let old = match guarded(|| lexer::lex(t)) {
+                    Ok(o) => o,
+                    Err(p) => return Some(Failure { key: "lex:panic".into(), case: case_json(t, *s, *e, r), detail: p }),
+                };
+                match eval_step(t, &old, *s, *e, r) {
+                    Ok((_, nt)) => {
+                        if nt {
+                            nontriv.fetch_add(1, Ordering::Relaxed);
+                        }
+                        None
+                    }
+                    Err((kind, detail)) => Some(Failure { key: format!("{}:large-text", classify(t, *s, *e, r, &kind)), case: case_json(t, *s, *e, r), detail: truncate(&detail, 600) }),
+                }
+            })
+            .collect();
+        fam_stats.push(json!({"family": "beyond-the-small-bounds", "cases": evals.load(Ordering::Relaxed) - e0, "failing": sf.len()}));
+        all_fail.extend(sf.into_iter().take(MAX_KEPT_FAILURES));
+    }
     // chained histories: BFS, every update result is fed into the next update (never re-lexed)
     let (hs, ht, hfail) = histories(tier);
     all_fail.extend(hfail);
@@ -268,6 +294,45 @@ pub fn run(tier: Tier) -> Report {
     let _ = thorough;
     rep.failures = all_fail;
     rep
+}
+
+/// Texts beyond the small bounds with hand-picked edits: tokens longer than 1 024 bytes (a
+/// comment line, an identifier), more than 64 / 128 tokens, a replacement longer than 1 024 bytes
+fn scale_cases() -> Vec<(String, usize, usize, String)> {
+    let mut v = vec![];
+    let long_comment = format!("a := 1; // {}\nb := 2;", "c".repeat(1500));
+    let long_ident = format!("a {} b", "x".repeat(1500));
+    let long_call = format!("  printi({});\n", "1 + ".repeat(330) + "1");
+    for t in [&long_comment, &long_ident, &long_call] {
+        let n = t.len();
+        for p in [0usize, 1, 2, 8, 9, 10, 11, 12, 1020, 1023, 1024, 1025, 1030, n - 2, n - 1, n] {
+            if p > n || !t.is_char_boundary(p) {
+                continue;
+            }
+            for r in ["x", "//", " ", "'"] {
+                v.push((t.clone(), p, p, r.to_string()));
+            }
+            if p < n && t.is_char_boundary(p + 1) {
+                v.push((t.clone(), p, p + 1, String::new()));
+            }
+        }
+    }
+    // 140 one-letter tokens separated by blanks: an edit directly behind / in front of every token
+    let many: String = "i ".repeat(140);
+    for k in 0..140 {
+        v.push((many.clone(), 2 * k + 1, 2 * k + 1, "0".to_string()));
+        v.push((many.clone(), 2 * k, 2 * k, "f".to_string()));
+        v.push((many.clone(), 2 * k + 1, 2 * k + 2, String::new()));
+    }
+    // long replacement texts
+    let big = "proc p() { i := 1; }\n".repeat(60);
+    for t in ["", "a b", "proc main() { }"] {
+        for p in 0..=t.len() {
+            v.push((t.to_string(), p, p, big.clone()));
+            v.push((t.to_string(), 0, p, big.clone()));
+        }
+    }
+    v
 }
 
 fn histories(tier: Tier) -> (u64, u64, Vec<Failure>) {
